@@ -83,6 +83,13 @@ def r1_adoption_kernel(ctx, rule):
         ctx.unk(rule, qual, 'the co-parent loop is not a top-level statement of the kernel')
         return
     after = outcomes(body[idx + 1:], {}, terms)
+    # the loop examines EVERY co-parent: it is left only by the `return False` of a co-parent that out-ranks this one (a `break` - e.g.
+    # in place of the `continue` that skips the parent's own position - would let the kernel adopt without asking the co-parents to the right)
+    brk = [x for b in loop.body for x in ast.walk(b) if isinstance(x, ast.Break)]
+    if brk:
+        ctx.bad(rule, qual, 'the co-parent loop is left by break (line %d)' % brk[0].lineno,
+                'co-parents to the right are never asked: two parents adopt the same child, which is then emitted twice', facts, brk[0], firm=True)
+        return
     # before the loop: bindings; a shortcut `if <the child has one position only>: return True` (the loop would find no co-parent:
     # its only position is the parent's own); anything else that can leave the kernel before the co-parents are examined is not decided
     before_ok = True
@@ -571,7 +578,9 @@ def rules(tier):
             # C02-da: session saved after the popped pre-terminal was generated - it is generated again after --load
             ('C02.R19', _shared_rule('c08', 'r23_no_save_after_generation')),
             # C14-db: pre-terminals right of an exhausted position are lost on resume
-            ('C02.R20', _shared_rule('c08', 'r24_restore_visits_every_position'))] + _loader_bundle() + []
+            ('C02.R20', _shared_rule('c08', 'r24_restore_visits_every_position')),
+            # mutation sweep: the last queued pre-terminal is lost when next() tests len == 1
+            ('C02.R21', _shared_rule('plumbing', 'generator_glue'))] + _loader_bundle() + []
 
 
 META = {
